@@ -131,7 +131,7 @@ func enrollOpen(ct, priv, pub []byte, keyID string) (*types.NodeCredentials, boo
 
 // enrollFetch drives one honest flow up to (not including) the node-side
 // handling of the response. step names the library call that failed.
-func enrollFetch(s *world.Server, flow string, nodeWrap bool, state, params *structpb.Struct, via *world.Node, lateToken bool) (res *world.EnrollResult, step string, err error) {
+func enrollFetch(s *world.Server, flow string, nodeWrap bool, state, params *structpb.Struct, via *world.Node, lateToken bool, fetchOpt ...nodeenrollment.Option) (res *world.EnrollResult, step string, err error) {
 	res = &world.EnrollResult{}
 	var stateOpt []nodeenrollment.Option
 	if state != nil {
@@ -194,7 +194,7 @@ func enrollFetch(s *world.Server, flow string, nodeWrap bool, state, params *str
 	default:
 		panic("enroll: unknown flow " + flow)
 	}
-	if res.Resp, err = registration.FetchNodeCredentials(s.Ctx, s.Store, res.Req, s.Opts()...); err != nil {
+	if res.Resp, err = registration.FetchNodeCredentials(s.Ctx, s.Store, res.Req, s.Opts(fetchOpt...)...); err != nil {
 		return res, "fetch", err
 	}
 	return res, "", nil
@@ -326,7 +326,22 @@ func enrollCaseBody(c *engine.Ctx, ec enrollCase) {
 	if lateToken {
 		r.Count("token_supplied_after_credential_generation", 1)
 	}
-	er, step, err := enrollFetch(s, ec.Flow, ec.NodeWrap, state, params, via, lateToken)
+	// the redeeming fetch call may itself carry a state option (a handler-wide
+	// default, or an explicit nil); a token that carries state overrides it
+	// (documented on FetchNodeCredentials), so the expected record is unchanged
+	var fetchOpt []nodeenrollment.Option
+	fetchState := "none"
+	if ec.Flow == world.FlowToken && ec.State == "nested" {
+		switch (ec.Rep + len(ec.Backend) + int(ec.Salt&1)) % 3 {
+		case 1:
+			fetchState = "handler-default"
+			fetchOpt = append(fetchOpt, nodeenrollment.WithState(enrollStruct("nested", ec.Salt+7)))
+		case 2:
+			fetchState = "explicit-nil"
+			fetchOpt = append(fetchOpt, nodeenrollment.WithState(nil))
+		}
+	}
+	er, step, err := enrollFetch(s, ec.Flow, ec.NodeWrap, state, params, via, lateToken, fetchOpt...)
 	if err != nil {
 		viol("honest-enrollment-error:"+ec.Flow+":"+step, fmt.Sprintf("honest enrollment failed at %s: %v", step, err))
 		return
@@ -535,6 +550,9 @@ func enrollCaseBody(c *engine.Ctx, ec enrollCase) {
 			viol("record-state-differs:"+ec.Flow, "the stored node record's state is not the state given by the operator")
 		}
 		r.Count("state_compared:"+ec.State, 1)
+		if ec.Flow == world.FlowToken && ec.State == "nested" {
+			r.Count("token_state_vs_fetch_option:"+fetchState, 1)
+		}
 	default:
 		wi := ni.WrappingRegistrationFlowInfo
 		switch {
@@ -868,6 +886,9 @@ func runEnroll(c *engine.Ctx) engine.Result {
 		r.Require("state_or_params:"+st, n/3)
 		r.Require("state_compared:"+st, int64(perFlow[world.FlowAuthorize]+perFlow[world.FlowToken])/3)
 		r.Require("params_compared:"+st, int64(perFlow[world.FlowWrapper]+perFlow[world.FlowRewrapped])/3)
+	}
+	for _, k := range []string{"none", "handler-default", "explicit-nil"} {
+		r.Require("token_state_vs_fetch_option:"+k, int64(perFlow[world.FlowToken])/3/6)
 	}
 	r.Require("responses_opened", n)
 	r.Require("certificates_parsed", 2*n)
